@@ -20,22 +20,25 @@ def run(ctx):
         summ = sc.run_driver(ctx, "read", [out, vf])
         for m in verif.read_ndjson(out):
             ctx.violation(describe(m), m)
-        ctx.log("replayed 1 case in both namespaces: %d mismatches" % summ["mismatches"])
+        ctx.log("replayed 1 case: %d mismatches" % summ["mismatches"])
         return
 
     mc = ctx.model_check("MCServeLoop", sc.c08_mc_cfg("C8InputsMC" if quick else "C8InputsMC3"), sc.C08_INVS, workers=6, timeout=900, name="MCServeLoop_c08")
-    res = sc.emit_parallel(ctx, "EmitServeLoop", [sc.serve_emit_cfg(ctx.tier, "c08", p) for p in (1, 2)])
+    res = sc.emit_parallel(ctx, "EmitServeLoop", sc.serve_emit_cfgs(ctx, "c08", 4 if quick else 6))
     vecs = sc.collect(res, r"c08_vectors_\d+\.ndjson")
     nvec = sum(1 for f in vecs for _ in open(f))
     ctx.log("TLC emitted %d vectors" % nvec)
-    summ = sc.run_driver(ctx, "read", [out] + vecs)
+    summ = sc.run_driver_files(ctx, "read", out, vecs)
     mism = verif.read_ndjson(out)
-    ctx.log("driver: %d served sessions (2 namespaces), %d handler invocations, %d mismatches, %d stalls" % (
-        summ["evaluations"], summ["handler_invocations"], summ["mismatches"], summ["stalls"]))
+    ctx.log("driver: %d served sessions (%d kinds of session x 2 rendering styles per vector), %d handler invocations, %d mismatches, %d stalls" % (
+        summ["evaluations"], summ["sessions"], summ["handler_invocations"], summ["mismatches"], summ["stalls"]))
     if summ["stalls"]:
         stalled = [m for m in mism if m["kind"] == "stall"]
         raise verif.Undecided("%d sessions did not finish within the watchdog (not a verdict): %s" % (
             summ["stalls"], json.dumps(stalled[0])[:400]))
+    if summ["setup_failures"]:
+        raise verif.Undecided("%d sessions could not be made as the specification describes them (not a verdict): %s" % (
+            summ["setup_failures"], [m for m in mism if m["kind"] == "setup"][0]["why"][:400]))
     sc.report_grouped(ctx, [m for m in mism if m["kind"] == "read"], signature, describe)
     nself = selftest(ctx, vecs)
     ctx.write_evidence("model_checking", {
@@ -47,11 +50,20 @@ def run(ctx):
         "exhaustive": "every prefix (<= %d items over %d continuing items) x 61 terminators (49 constructs nested at depth 1-3 of a stanza / "
                       "foreign element: comment, PI, directive, stream error, restart, other stream element, mismatched end tag; "
                       "11 top-level: text, comment, PI, directive, restart, other stream element, closing tag, EOF, stray end tag, "
-                      "2 stream errors; none) x {nothing, one more stanza behind} x 14 program cycles" % (2 if quick else 3, 4 if quick else 6),
-        "rule": "distinct = (number of invocations, outcome class) classes; non-trivial = at least one handler invocation",
+                      "2 stream errors; none) x {nothing, one more stanza behind} x 14 program cycles; continuing items include the local side's "
+                      "Close() (so that every terminator arrives with the output stream open and closed) and stanzas from the own bare / "
+                      "another entity's / a no-longer-own address; the %d kinds of session (initiated / received x client / server "
+                      "namespace x application / library negotiator x header names the same / another / no address x binding) rotate "
+                      "against the vectors (every kind meets every terminator and program cycle)" % (
+                          2 if quick else 3, 6 if quick else 8, summ["sessions"]),
+        "rule": "distinct = (session kind, number of invocations, outcome class) classes; non-trivial = at least one handler invocation; "
+                "the session's own address in the vectors is taken from LocalAddr().Bare() of the running session and checked against "
+                "the specification's address rule (ServeLoop!Local)",
         "samples": summ["samples"][:3],
     }, assumptions=[
         "handlers return nil and write nothing (handler errors and replies are C07)",
+        "sessions of the client and server stanza namespaces (the property's quantifier); the WebSocket framing is not covered here",
+        "the local Close() happens when Serve has consumed everything the peer sent before it (sequential, no race with a handler)",
         "after a read error that the handler ignores, what it reads further is not determined by the property: only "
         "'nothing outside its element, no stream-level token' is checked there",
         "raw EOF without closing tag: both nil and an error are accepted; a stream error element nested in a stanza may be "
@@ -73,21 +85,25 @@ def first_stop(v):
 def signature(m):
     import re
     k, stop = first_stop(m["vector"])
-    return (re.sub(r"\d+", "N", m["why"])[:60], k, stop in ("c/restart",), m["vector"]["progs"][0]["mode"])
+    closed = any(it["k"] == "lclose" for it in m["vector"]["items"])
+    return (re.sub(r"\d+", "N", re.sub(r"\(LocalAddr.*?\)|from \S+ \(not.*?\)", "", m["why"]))[:60], k, stop in ("c/restart",),
+            m["vector"]["progs"][0]["mode"], closed)
 
 
 def describe(m):
     v = m["vector"]
-    return "served %s (%s namespace) with handler programs %s: %s; handler log %s; Serve returned %s %r" % (
-        m["input"][:400], m["ns"], json.dumps(v["progs"]), m["why"], json.dumps(m["observed"])[:400], m["outcome"],
-        m.get("serve_error"))
+    closes = [i for i, it in enumerate(v["items"]) if it["k"] == "lclose"]
+    return "session %s (own address %s) served %s%s with handler programs %s: %s; handler log %s; Serve returned %s %r" % (
+        m["sess"], m["own"], m["input"][:400],
+        (" - the local side called Close() before item(s) %s arrived" % [i + 1 for i in closes]) if closes else "",
+        json.dumps(v["progs"]), m["why"], json.dumps(m["observed"])[:400], m["outcome"], m.get("serve_error"))
 
 
 def selftest(ctx, vecs):
     """corrupt expectations: one token of an invocation's expected view changed, one invocation
     dropped, the outcome class changed; the driver must reject all and accept the original."""
     base = None
-    for l in open(vecs[0]):
+    for l in (l for f in reversed(vecs) for l in open(f)):
         v = json.loads(l)
         if (len(v["inv"]) == 2 and len(v["inv"][1]["ev"]) >= 3 and v["out"] == [["nil"]]
                 and all(i["free"] == 0 for i in v["inv"]) and not any("err" in e for i in v["inv"] for e in i["ev"])):
@@ -103,10 +119,12 @@ def selftest(ctx, vecs):
     open(vf, "w").write("".join(json.dumps(x) + "\n" for x in (base, m1, m2, m3, m4)))
     sc.run_driver(ctx, "read", [of, vf])
     got = verif.read_ndjson(of)
-    lines = {(m["line"], m["ns"]) for m in got}
+    lines = {(m["line"], m["r"]) for m in got}
     if any(l == 1 for l, _ in lines) and not ctx.violations:
         raise verif.Undecided("binding self-test: the unchanged vector was rejected")
-    missed = [(l, ns) for l in (2, 3, 4, 5) for ns in ("client", "server") if (l, ns) not in lines]
-    if missed:
+    missed = [(l, r) for l in (2, 3, 4, 5) for r in (0, 1) if (l, r) not in lines]
+    if missed and not ctx.violations:
         raise verif.Undecided("binding self-test: corrupted expectations ACCEPTED: %s" % missed)
-    return 8
+    if missed:   # the tree under test already violates the property in the very way a corruption describes
+        ctx.log("binding self-test: corrupted expectations %s match the (violating) behaviour of this tree" % missed)
+    return 8 - len(missed)
